@@ -39,6 +39,15 @@ def run(tier, wd):
     for c, r in rows3:
         c["ti"] += off3
     rows = rows + rows3
+    pols = sorted(set(c["policy"] for c, _ in rows))
+    # sub commands whose names are spelled like options; a hidden command declared before its visible siblings; a sub command added
+    # to the application after earlier runs
+    tc.add_tree(rep, wd, binpath, alphabet, pols, "c04-dash", T.dash_tree(), trs, rows)
+    rows_h = tc.add_tree(rep, wd, binpath, alphabet, pols, "c04-hidden", T.hidden_tree(), trs, rows)
+    rows_l = tc.add_tree(rep, wd, binpath, alphabet, pols, "c04-late", T.late_tree(), trs, rows)
+    nre = tc.rerun(rep, wd, binpath, trs, rows_h, lambda c: [["-h"], ["bogus"]], CLAUSES, "after earlier runs")
+    nre += tc.rerun(rep, wd, binpath, trs, rows_l, lambda c: [["early"], ["nothere"]], CLAUSES, "after earlier runs")
+    rep.cov["rerun_cases"] = nre
     kinds = {}
     for c, r in rows:
         if r.get("skipped"):
